@@ -4,6 +4,7 @@ package main
 
 import (
 	"context"
+	"encoding/hex"
 	"encoding/json"
 	"errors"
 	"fmt"
@@ -119,6 +120,8 @@ type c11Case struct {
 	// Expect = "exceeds": a witness outside the property's guards for which the debit exceeds the reserve
 	// (the Lean counter-example theorems); the run only records whether the real code reproduces it.
 	Expect string `json:"expect,omitempty"`
+	// FeeBump (kind "verified-batch"): the stored orders' MaxBatchFeeRate is the proposal's fee rate plus this.
+	FeeBump int64 `json:"fee_bump,omitempty"`
 }
 
 // c11Archived is the property's text: executed, canceled, expired and failed
@@ -314,6 +317,8 @@ func runC11(r *Run) {
 			runValidate(c)
 		case "validate-pending":
 			c11RunValidatePending(r, c)
+		case "verified-batch":
+			c11RunVerifiedBatch(r, c)
 		}
 	}
 	if r.ReplayFile != "" {
@@ -382,6 +387,11 @@ func runC11(r *Run) {
 	g := &bGen{rng: r.Rng, search: false, prop: "C11"} // honest proposals wanted, also when searching
 	for i := 0; i < r.N/40+20 && len(r.Violations) < 20; i++ {
 		c11RunValidatePending(r, c11GenValidatePending(r, g, i))
+	}
+
+	// ---- (4c) what batches accepted by the real verifier debit, incl. orders partially filled earlier ----
+	for i := 0; i < r.N/25+20 && len(r.Violations) < 20; i++ {
+		c11RunVerifiedBatch(r, c11GenVerifiedBatch(r, g, i))
 	}
 }
 
@@ -1610,6 +1620,238 @@ func c11BeyondGuard(r *Run, n int) {
 			if len(r.Notes) < 3 {
 				r.Notes = append(r.Notes, fmt.Sprintf("beyond premium guard: %s single fill debit %d > reserved %d + 2", o.token(), one, rv))
 			}
+		}
+	}
+}
+
+
+// ---------------------------------------------------------------- debit of batches accepted by the real verifier
+
+// c11MatchedUnits sums, per nonce, the units a proposal matches (nil if a nonce occurs in two markets).
+func c11MatchedUnits(p *bCase) map[string]uint64 {
+	res := map[string]uint64{}
+	for _, mk := range p.Msg.Markets {
+		for _, mo := range mk.Orders {
+			if _, dup := res[mo.Nonce]; dup {
+				return nil
+			}
+			t := uint64(0)
+			for _, a := range mo.Asks {
+				t += uint64(a.UnitsFilled)
+			}
+			for _, b := range mo.Bids {
+				t += uint64(b.UnitsFilled)
+			}
+			res[mo.Nonce] = t
+		}
+	}
+	return res
+}
+
+// c11GenVerifiedBatch: an honest proposal of the batch generator whose own orders are, as a regular part of the
+// stream, orders that earlier batches already filled partially (original size > remaining units). In ~40 % of the
+// cases one matched order has FEWER units left than the proposal matches (but not fewer than ... its original size
+// allows): a verifier that accepts such a batch lets it debit more than the order reserves.
+func c11GenVerifiedBatch(r *Run, g *bGen, i int) c11Case {
+	p := g.genCase(g.pickVersion(), i)
+	for try := 0; try < 6 && len(p.Devs) > 0; try++ {
+		p = g.genCase(g.pickVersion(), i)
+	}
+	c := c11Case{Kind: "verified-batch", Pending: p, FeeBump: int64(r.Rng.Intn(3)) * int64(r.Rng.Intn(5000))}
+	matched := c11MatchedUnits(p)
+	if matched == nil {
+		return c
+	}
+	// earlier partial fills: original size above the remaining units
+	for k := range p.Env.Orders {
+		o := &p.Env.Orders[k]
+		if r.Rng.Intn(2) == 0 {
+			o.Units = o.UnitsUnfulfilled + uint64(1+r.Rng.Intn(20))
+		}
+	}
+	if r.Rng.Intn(10) < 4 && len(p.Env.Orders) > 0 {
+		o := &p.Env.Orders[r.Rng.Intn(len(p.Env.Orders))]
+		if t := matched[o.Nonce]; t >= 2 {
+			orig := o.UnitsUnfulfilled
+			if o.Units > orig {
+				orig = o.Units
+			}
+			if orig < t {
+				orig = t
+			}
+			switch r.Rng.Intn(3) {
+			case 0:
+				o.UnitsUnfulfilled = t - 1 // boundary: one unit short
+			case 1:
+				o.UnitsUnfulfilled = 1 + uint64(r.Rng.Int63n(int64(t-1)))
+			default:
+				o.UnitsUnfulfilled = (t + 1) / 2
+			}
+			o.Units = orig + uint64(r.Rng.Intn(2))*uint64(r.Rng.Intn(10))
+			c.Note = "matched beyond the remaining units of a partially filled order"
+		}
+	}
+	return c
+}
+
+// c11RunVerifiedBatch installs the proposal, raises the stored orders' MaxBatchFeeRate to at least the proposal's fee
+// rate (the property's quantifier), runs the real OrderMatchValidate (real batchVerifier.Verify) and, if the batch is
+// ACCEPTED, evaluates the property on what it debits: per account, starting balance minus the verified ending balance
+// must not exceed the reserved values of the account's matched orders plus two satoshis per match, and no order may be
+// matched for more units than it has left.
+func c11RunVerifiedBatch(r *Run, c c11Case) {
+	p := c.Pending
+	if p == nil || len(p.Env.Accounts) == 0 {
+		return
+	}
+	sess, st, err := c11PendingSession(p)
+	if err != nil {
+		r.Count("vb/install-failed")
+		return
+	}
+	defer sess.mgr.Stop()
+	overfill := false
+	matchedUnits := c11MatchedUnits(p)
+	for _, so := range st.orders {
+		d := so.Details()
+		d.MaxBatchFeeRate = chainfee.SatPerKWeight(int64(p.Msg.FeeRate) + c.FeeBump)
+		if d.MaxBatchFeeRate < chainfee.FeePerKwFloor {
+			d.MaxBatchFeeRate = chainfee.FeePerKwFloor
+		}
+		if d.Units > d.UnitsUnfulfilled {
+			d.State = order.StatePartiallyFilled
+			r.Count("vb/stored-partially-filled")
+		}
+		n := so.Nonce()
+		if matchedUnits != nil && matchedUnits[hex.EncodeToString(n[:])] > uint64(d.UnitsUnfulfilled) {
+			overfill = true
+		}
+	}
+	var batch *order.Batch
+	var verr error
+	if pm := c11Safe(func() {
+		batch, verr = order.ParseRPCBatch(p.prepareMsg())
+		if verr == nil {
+			verr = sess.mgr.OrderMatchValidate(batch, p.Best)
+		}
+	}); pm != "" {
+		r.Count("vb/panic")
+		return
+	}
+	r.Evaluations++
+	if overfill {
+		r.Count("vb/proposal-beyond-remaining-units")
+	}
+	// model comparison of the verifier's unit checks: a proposal the generator left undisturbed is accepted only
+	// if every matched order passes them (outcome only – no error text)
+	if len(p.Devs) == 0 && matchedUnits != nil && batch != nil {
+		var toks []string
+		okTerms := true
+		for _, o := range p.Env.Orders {
+			var n order.Nonce
+			nb, _ := hex.DecodeString(o.Nonce)
+			copy(n[:], nb)
+			so, ok := st.orders[n]
+			u, m := matchedUnits[o.Nonce]
+			if !ok || !m {
+				continue
+			}
+			t := c11FromStored(so, 0)
+			if t.Amt < 0 || t.Self < 0 {
+				okTerms = false
+			}
+			toks = append(toks, t.token(), fmt.Sprint(u))
+		}
+		// only for accepted batches: a rejection can have other reasons, which must not be read from error texts
+		if okTerms && len(toks) > 0 && len(toks) == 2*len(matchedUnits) && verr == nil {
+			r.Emit("C11 vu "+strings.Join(toks, " "), "ok")
+			r.Count("vb/vu-ok")
+		}
+	}
+	if verr != nil || batch == nil {
+		r.Count("vb/rejected")
+		if overfill {
+			r.Count("vb/beyond-remaining-units-rejected")
+		}
+		return
+	}
+	r.Count("vb/accepted")
+	fs := batch.ExecutionFee
+	base, ppm := int64(p.Msg.ExecBase), int64(p.Msg.ExecRate)
+	acctIdx := map[[33]byte]int{}
+	for a := range p.Env.Accounts {
+		acctIdx[bHex33(p.Env.Accounts[a].Key)] = a
+	}
+	for _, diff := range batch.AccountDiffs {
+		acct, ok := sess.accts.accts[diff.AccountKeyRaw]
+		if !ok {
+			continue
+		}
+		reserved := big.NewInt(0)
+		k := 0
+		inside := true
+		var lines [][2]string
+		var over string
+		for nonce, ms := range batch.MatchedOrders {
+			so, ok := st.orders[nonce]
+			if !ok || so.Details().AcctKey != diff.AccountKeyRaw {
+				continue
+			}
+			t := c11FromStored(so, acctIdx[diff.AccountKeyRaw])
+			total := uint64(0)
+			for _, m := range ms {
+				total += uint64(m.UnitsFilled)
+				if uint64(m.UnitsFilled) < t.MinUnits {
+					inside = false // a fill below the minimum match: outside the property's quantifier
+				}
+			}
+			if c11Archived(t.State) || t.MinUnits == 0 || t.Amt < 0 || !c11InDomain(t, base, ppm) ||
+				(!t.IsBid && !c11AskGuard(t)) || t.MaxFee < int64(batch.BatchTxFeeRate) {
+				inside = false
+			}
+			if !inside {
+				break
+			}
+			if total > t.Unfilled {
+				over = fmt.Sprintf("order %x… with %d of %d units left is matched for %d units", nonce[:4], t.Unfilled, t.Units, total)
+			}
+			rv, pnk := c11Reserved(so, fs, uint8(acct.Version))
+			if pnk {
+				inside = false
+				break
+			}
+			reserved.Add(reserved, big.NewInt(rv))
+			k += len(ms)
+			lines = append(lines, [2]string{fmt.Sprintf("C11 rv %s %d %d %d", t.token(), base, ppm, uint8(acct.Version)), fmt.Sprint(rv)})
+		}
+		if !inside || k == 0 {
+			r.Count("vb/account-outside-quantifier")
+			continue
+		}
+		sort.Slice(lines, func(i, j int) bool { return lines[i][0] < lines[j][0] })
+		for _, l := range lines {
+			r.Emit(l[0], l[1])
+		}
+		r.Count("vb/oracle")
+		r.Distinct(fmt.Sprint(lines))
+		debit := int64(acct.Value) - int64(diff.EndingBalance)
+		bound := new(big.Int).Add(reserved, big.NewInt(2*int64(k)))
+		if big.NewInt(debit).Cmp(bound) > 0 {
+			r.Count("oracle/violation")
+			what := fmt.Sprintf("a batch accepted by the real verifier debits %d from account %x… (balance %d -> %d) but the "+
+				"%d matched order(s) of the account reserve only %v (+%d tolerance)", debit, diff.AccountKeyRaw[:4],
+				int64(acct.Value), int64(diff.EndingBalance), len(lines), reserved, 2*k)
+			if over != "" {
+				what += "; " + over
+			}
+			r.Violate(what, "C11/verified-batch-debits-more-than-reserved", c)
+			return
+		}
+		if over != "" {
+			r.Count("oracle/violation")
+			r.Violate("accepted batch fills more than remains: "+over+" (the reserve only covers the remaining units)",
+				"C11/verified-overfill", c)
+			return
 		}
 	}
 }
